@@ -512,7 +512,15 @@ class Check(PropertyCheck):
                   "the whole-history form of emitted_never_blocking_true; pauses_only_on_own_blocking / oinv_step / lower_blocksOwn / "
                   "flat_blocksOwn / tree_own_step / tree_layers_pause_only_on_own / nextlayer_tree_pause_only_on_own (in a tree "
                   "of any shape, also behind a NextLayer, after any schedule every layer has only ever paused on commands carrying "
-                  "its own index: no layer is paused because a descendant blocks). Model = Layer.handle_event/__process/__continue, parent relays via "
+                  "its own index — which by itself separates a layer from its descendants only when indices are pairwise "
+                  "distinct, cross-audit round 6), tree_no_layer_paused_by_descendant / nextlayer_tree_no_layer_paused_by_descendant "
+                  "(for a fresh tree with Nodup indices: the indices never change, ti_idxs, and every pause of every layer at "
+                  "every depth is on a command whose index belongs to none of its descendants; via the positional children "
+                  "invariant children_step_rel and TI/ti_step), tree_node_without_blocking_never_pauses (+ interpN_quiet, "
+                  "lower_quiet: a tree node none of whose tables has a blocking yield is never paused, whatever its children "
+                  "do — the tied form of child_block_does_not_block_parent for interpN). interp_owns / interp_noblock are "
+                  "AUXILIARY: they concern the round-1 fixed-tree interpreter Prog.interp, which the driver no longer runs; "
+                  "nothing claimed here rests on them (tied counterparts: interpN_owns, interpN_quiet). Model = Layer.handle_event/__process/__continue, parent relays via "
                   "`yield from child.handle_event`, NextLayer._handle_event/_ask/handle_event incl. the hand-over. Tie: "
                   "generated handler programs (with handler re-binding actions) run on real Layer subclasses arranged in "
                   "random trees (<=8 layers, height <=4, branching <=3) behind an optional real NextLayer and in the compiled "
